@@ -1235,4 +1235,83 @@ theorem rebuilt_index_ok (l : List Path) (hnd : l.Nodup) (q : Path) (i : Nat) :
       have := List.find?_eq_none.mp hf (q, i) hm
       simp at this
 
+/-! ## Acyclicity on the reference graph -/
+
+theorem RG.Acyclic.of_edges_sub {g h : RG} (hac : g.Acyclic) (he : ∀ x y, h.edges x y → g.edges x y) : h.Acyclic :=
+  fun x r => hac x (r.mono he)
+
+/-- an edge `a → b` with `a ≠ b` and no path `b ⇒ a` cannot close a cycle -/
+theorem inc_reach_split (g : RG) (a b : Path) (hab : a ≠ b) (hnr : ¬ g.Reach1 b a) {x y : Path}
+    (r : (Spec.step g (.inc a b)).Reach1 x y) :
+    g.Reach1 x y ∨ ((x = a ∨ g.Reach1 x a) ∧ (b = y ∨ g.Reach1 b y)) := by
+  induction r with
+  | edge e =>
+    rcases e with e | ⟨rfl, rfl, _, _⟩
+    · exact Or.inl (.edge e)
+    · exact Or.inr ⟨Or.inl rfl, Or.inl rfl⟩
+  | step e _ ih =>
+    rcases e with e | ⟨rfl, rfl, _, _⟩
+    · rcases ih with ih | ⟨h1, h2⟩
+      · exact Or.inl (.step e ih)
+      · refine Or.inr ⟨Or.inr ?_, h2⟩
+        rcases h1 with rfl | h1
+        · exact .edge e
+        · exact .step e h1
+    · rcases ih with ih | ⟨h1, _⟩
+      · exact Or.inr ⟨Or.inl rfl, Or.inr ih⟩
+      · rcases h1 with e | h1
+        · exact absurd e.symm hab
+        · exact absurd h1 hnr
+
+theorem spec_inc_acyclic (g : RG) (hac : g.Acyclic) (a b : Path) : (Spec.step g (.inc a b)).Acyclic := by
+  by_cases hc : a ≠ b ∧ ¬ g.Reach1 b a
+  · obtain ⟨hab, hnr⟩ := hc
+    intro x r
+    rcases inc_reach_split g a b hab hnr r with r | ⟨h1, h2⟩
+    · exact hac x r
+    · rcases h1 with rfl | h1 <;> rcases h2 with e | h2
+      · exact hab e.symm
+      · exact hnr h2
+      · subst e; exact hnr h1
+      · exact hnr (h2.trans h1)
+  · apply hac.of_edges_sub
+    rintro x y (e | ⟨_, _, h1, h2⟩)
+    · exact e
+    · exact absurd ⟨h1, h2⟩ hc
+
+theorem spec_step_acyclic (g : RG) (hac : g.Acyclic) (op : Op) (hop : ∀ o n, op ≠ .rename o n) :
+    (Spec.step g op).Acyclic := by
+  cases op with
+  | add p => exact hac.of_edges_sub (fun x y e => e)
+  | inc a b => exact spec_inc_acyclic g hac a b
+  | remove p => exact hac.of_edges_sub (fun x y e => e.1)
+  | rename o n => exact absurd rfl (hop o n)
+  | sort => exact hac
+
+theorem RG.empty_acyclic : RG.empty.Acyclic := by
+  intro x r
+  cases r with
+  | edge e => exact e
+  | step e _ => exact e
+
+/-- re-ordering the dependency lists (the iteration order of the hash sets) changes neither the invariant nor the
+    reference graph a state stands for -/
+theorem reorder_spec {s : MG} (h : Inv s) (f : Node → Node) (hid : ∀ n, (f n).id = n.id)
+    (hperm : ∀ n ∈ s.graph, (f n).deps.Perm n.deps) :
+    Inv { s with graph := s.graph.map f } ∧ abs { s with graph := s.graph.map f } = abs s := by
+  refine ⟨h.mapDeps f hid (fun n hn => (hperm n hn).nodup_iff.mpr (h.nodup n hn)), ?_⟩
+  apply RG.ext'
+  · intro x
+    simp only [abs, List.mem_map]
+    constructor
+    · rintro ⟨_, ⟨m, hm, rfl⟩, e⟩; exact ⟨m, hm, by rw [← e, hid]⟩
+    · rintro ⟨m, hm, e⟩; exact ⟨_, ⟨m, hm, rfl⟩, by rw [hid]; exact e⟩
+  · intro x y
+    simp only [abs, List.mem_map]
+    constructor
+    · rintro ⟨_, ⟨m, hm, rfl⟩, e, hy⟩
+      exact ⟨m, hm, by rw [← e, hid], (hperm m hm).mem_iff.mp hy⟩
+    · rintro ⟨m, hm, e, hy⟩
+      exact ⟨_, ⟨m, hm, rfl⟩, by rw [hid]; exact e, (hperm m hm).mem_iff.mpr hy⟩
+
 end ErgVerif.C21
